@@ -612,12 +612,20 @@ func kindFacts(r *Run) map[string]string {
 			if d.Choice == 0 && !isNamedQ {
 				out[norm(org)] = k
 			}
+			if d.Choice != 0 && !isNamedQ {
+				out["not:"+norm(org)+":"+k] = "yes" // a failed assertion: the type is not of this kind
+			}
 		case strings.HasPrefix(d.Sym, "K:"):
 			rest := strings.TrimPrefix(d.Sym, "K:")
 			if i := strings.Index(rest, ":*types."); i > 0 {
 				ks := strings.Split(rest[i+1:], ",")
 				if d.Choice < len(ks) && ks[d.Choice] != "*types.Named" && ks[d.Choice] != "*types.Alias" {
 					out[norm(rest[:i])] = ks[d.Choice]
+				}
+				if d.Choice >= len(ks) {
+					for _, k := range ks { // the default arm: none of the listed kinds
+						out["not:"+norm(rest[:i])+":"+k] = "yes"
+					}
 				}
 			}
 		}
@@ -678,6 +686,16 @@ func curriedCompat(c *Ctx, plugin string, bodies map[string]map[int]string, body
 				ck, bk := kindFacts(cu.rs.Run), kindFacts(bi.rs.Run)
 				for org, k := range ck {
 					if k2, ok := bk[org]; ok && k2 != k {
+						compatible = false
+						break
+					}
+					if !strings.HasPrefix(org, "not:") && !strings.HasPrefix(org, "named:") && bk["not:"+org+":"+k] == "yes" {
+						compatible = false
+						break
+					}
+				}
+				for org, k := range bk {
+					if !strings.HasPrefix(org, "not:") && !strings.HasPrefix(org, "named:") && ck["not:"+org+":"+k] == "yes" {
 						compatible = false
 						break
 					}
